@@ -146,6 +146,9 @@ structure DState where
   nSnapshots : Nat := 0
   nRecovered : Nat := 0
   nTolChecked : Nat := 0
+  /-- set by `commit`: the committed store before it, should the commit itself fail (map full) -/
+  preCommit : Option Store := none
+  nMapFull : Nat := 0
   /-- per index: the configuration and the keys the store predicates were last evaluated on -/
   predCache : List (Nat × Metric × Nat × Option (Option Nat) × Store) := []
   nDefChecked : Nat := 0
@@ -776,6 +779,10 @@ def handleOp (d : DState) (p : Pending) (res : List String) : DState := Id.run d
   let op := p.toks.headD ""
   let some (c, rest) := parseW d p.toks.tail | return d.diff "unparsable op" "" (" ".intercalate p.toks)
   d := if ["add", "append", "del", "clear", "build", "prepare"].contains op then noteW { d with expectAfterUpgrade := none } c else d
+  -- the database ran out of space in an item operation: LMDB has broken the transaction, the harness aborts it; nothing
+  -- of it is judged (the dump after the abort is compared with the committed state as usual)
+  if op != "build" && res.take 2 == ["err", "mapfull"] then
+    return { d with resync := true, preBuild := none, nMapFull := d.nMapFull + 1 }
   d := if !d.specOff then specStep d op c rest res else d
   let s := d.view
   let cmp (d : DState) (model : String) : DState :=
@@ -1160,7 +1167,7 @@ def decodeOldPair (kb vb : Bytes) : Option (Key × Val) :=
   v.map fun v => (k, v)
 
 def handleCommit (d : DState) : DState := Id.run do
-  let mut d := { d with step := d.step + 1, committing := false }
+  let mut d := { d with step := d.step + 1, committing := false, preCommit := some d.committed }
   if d.rawPending.size > 0 then
     let pairs := d.rawPending.toList
     d := { d with rawPending := #[] }
@@ -1345,7 +1352,17 @@ def step (d : DState) (line : String) : DState :=
       else if ["kern", "dist", "bq"].contains (p.toks.headD "") then handleKern { d with pending := none } p.toks res
       else if ["rawput", "rawdel", "upgrade04to05", "upgrade05to06"].contains (p.toks.headD "") then handleRaw { d with pending := none } p.toks res
       else handleOp { d with pending := none } p res
-    | none => d.diff "result without an operation" "" line
+    | none =>
+      match d.preCommit, res with
+      | some before, ["err", "mapfull"] =>
+        -- the commit itself ran out of space: the transaction is gone, as after an abort
+        let infos := d.infos.map fun (i, info) =>
+          match d.infosAtBegin.find? (·.1 == i) with
+          | some (_, old) => (i, old)
+          | none => (i, { info with capHist := none })
+        { d with committed := before, txn := none, versions := d.versions.pop, preCommit := none, resync := false, preBuild := none,
+                 past := [], infos := infos, spec := d.specAtBegin, fresh := d.freshAtBegin, junk := [], nMapFull := d.nMapFull + 1 }
+      | _, _ => d.diff "result without an operation" "" line
   | kw :: _ =>
     if opKeywords.contains kw then { d with pending := some { toks } }
     else d.diff "unknown record" "" line
